@@ -107,6 +107,19 @@ class Chooser:
         return None
 
 
+def _has_own_yield(fnode):
+    """does this function body contain a yield of its own (not one of a nested function / lambda / class)?"""
+    stack = list(fnode.body) if isinstance(fnode.body, list) else [fnode.body]
+    while stack:
+        n = stack.pop()
+        if isinstance(n, (ast.Yield, ast.YieldFrom)):
+            return True
+        if isinstance(n, (ast.FunctionDef, ast.AsyncFunctionDef, ast.Lambda, ast.ClassDef)):
+            continue
+        stack.extend(ast.iter_child_nodes(n))
+    return False
+
+
 class _Abandon(BaseException):
     """unwinds a suspended generator whose path is over (nothing it does is observed any more)"""
 
@@ -1061,7 +1074,8 @@ class Interp:
             self.exec_block(s.body, fr)
         except AbsRaise as ar:
             self.emit("with_exit", "with", [mgr], node=s, extra="exc")
-            r = self.call(exit_, [Sym("exc_type", "any"), ar.exc, Sym("tb", "any")], {}, s)
+            etype = ar.exc.cls if isinstance(ar.exc, Obj) else Ext("exc_type", "lib", role="class")
+            r = self.call(exit_, [etype, ar.exc, Ext("traceback", "lib", role="instance")], {}, s)
             if not self.truth(r, s):
                 raise
         except (ReturnEx, BreakEx, ContinueEx):
@@ -1665,6 +1679,8 @@ class Interp:
             return a == b
         if isinstance(a, (Sym,)) or isinstance(b, (Sym,)):
             s, o = (a, b) if isinstance(a, Sym) else (b, a)
+            if s.kind in ("num", "str", "bool") and isinstance(o, (Obj, ClassV, FuncV, BuiltinV, ModuleV, ListV, DictV, SetV)):
+                return False  # a number / string / bool is never an object instance, a class, a function or a container
             return Cond(("is", s.key(), vkey(o)))
         return a is b
 
@@ -2322,7 +2338,7 @@ class Interp:
             if isinstance(f.node, ast.Lambda):
                 return self.eval(f.node.body, fr)
             if getattr(f, "is_gen", None) is None:
-                f.is_gen = any(isinstance(n, (ast.Yield, ast.YieldFrom)) for n in ast.walk(f.node))
+                f.is_gen = _has_own_yield(f.node)
             if f.is_gen:
                 return GenV(self, f, fr, node)
             try:
